@@ -7,5 +7,6 @@ CONSTANTS
   WR <- Write
   TD <- ToDec
   NT <- NumText
-INVARIANTS LawDecRoundTrip LawDecBigAgrees LawDecBigRoundTrip
+  NTL <- NumTextLoc
+INVARIANTS LawDecRoundTrip LawDecBigAgrees LawDecBigRoundTrip LawDecLocRoundTrip LawDecLocShape
 CHECK_DEADLOCK FALSE
